@@ -25,7 +25,7 @@ VARIANTS = {
     'development': dict(inc=[os.path.join(REPO, 'development')], header='<ffsm2/machine_dev.hpp>'),
 }
 PROPS = ['C%02d' % i for i in range(1, 21)]
-SPEC_MODULES = ['contracts.machine', 'contracts.serial', 'contracts.control', 'contracts.plans', 'contracts.c20', 'contracts.c13', 'contracts.c10', 'contracts.c07', 'contracts.structure', 'contracts.c17', 'contracts.voidp']
+SPEC_MODULES = ['contracts.machine', 'contracts.serial', 'contracts.control', 'contracts.plans', 'contracts.c20', 'contracts.c13', 'contracts.c10', 'contracts.c07', 'contracts.structure', 'contracts.c17', 'contracts.voidp', 'contracts.sparse', 'contracts.wrappers']
 
 
 def load_units():
@@ -45,7 +45,7 @@ def load_units():
             cs = u.get('contracts') or {}
             if cs:
                 tags = set()
-                for e in cs[next(iter(cs))].get('ensures', []):
+                for e in cs['@target' if '@target' in cs else next(iter(cs))].get('ensures', []):
                     if isinstance(e, tuple):
                         tags.update(t for t in e[0].split('#')[0].split(',') if t)
                 u['props'] = list(u.get('props', [])) + sorted(tags - set(u.get('props', [])))
@@ -69,6 +69,9 @@ def dump_job(args):
     out = os.path.join(work, ast_key(witness, variant, defines) + '.json')
     try:
         dump_ast(os.path.join(HERE, 'witness', witness + '.cpp'), out, v['inc'], ['FFSM2_HEADER=' + v['header']] + defines)
+        if os.path.getsize(out) > (1 << 30):
+            os.unlink(out)
+            return (witness, variant, tuple(defines), None, 'AST of witness %s %s exceeds 1 GB (too many states in one machine?)' % (witness, defines))
         return (witness, variant, tuple(defines), out, None)
     except Unsupported as e:
         return (witness, variant, tuple(defines), None, str(e))
@@ -403,12 +406,12 @@ def main():
                 print('FAILED OBLIGATION unit=%s copy=%s %s: %s  [%s] %s' % (e['unit'], e['copy'], e['obligation'], e['description'], e['repo_src'], (e['clause'] or '')[:160]))
             print('VIOLATION property=%s replay=%s%s' % (prop, rp, '' if found else ' no-failing-input-found'))
             rc = 1
-        elif undecided:
+        if undecided:
             for uid, v, why in undecided[:10]:
                 print('UNDECIDED unit=%s copy=%s: %s' % (uid, v, (why or '').strip().split('\n')[0][:300]))
                 if a.show_failed:
                     print(why)
-            rc = 2
+            rc = rc or 2
         print('%s tier=%s units=%d obligations=%d discharged=%d violations=%d undecided=%d wall=%.1fs' % (
             prop, a.tier, len(units), total_n, total_ok, len(violations), len(undecided), wall))
         sys.exit(rc)
